@@ -169,7 +169,94 @@ def child(case):
                 viol('subscribe/over-limit-subscription-kept', f'subscription of a script whose history grew to {counts[i] + 3} (limit {L}) was not dropped')
             else:
                 bump('over_limit_subscriptions_dropped')
+        # ---- overlapping lookups of over-limit histories (several sessions, pipelined requests, a notification processed
+        # while the history read is in flight): every answer must still be the 'history too large' refusal
+        others = [srv.client(), srv.client()]
+        for o_ in others:
+            await o_.call('server.version', ['c17b', '1.4.2'])
+
+        def touch_block(idxs):
+            nonlocal salt
+            extra = []
+            for i in idxs:
+                salt += 1
+                o = last[i]
+                t = Tx([(o[0], o[1], b'', MINUS1)], [(1000, scripts[i])], locktime=salt)
+                extra.append(t)
+                last[i] = (t.hash, 0)
+            w.tip = w.make_block(w.tip, extra=extra, ntx=0)
+            w.bump()
+
+        async def judge_overlap(label, sent):
+            for (c_, id_, kind, i) in sent:
+                r = await c_.wait_reply(id_, 900)
+                n = len(orc.history(hashx(scripts[i])))
+                bump('overlapping_requests_judged')
+                if r is None:
+                    viol('overlap/no-reply', f'{label}: no reply to {kind} for a history of {n} (limit {L})')
+                elif 'result' in r:
+                    what = (f'{len(r["result"])} entries' if kind == 'get_history' else 'a status')
+                    viol(f'overlap/{kind}-over-limit-answered', f'{label}: {kind} for a history of {n} entries (limit {L}) was answered with {what} '
+                         'instead of the history-too-large refusal')
+                elif 'too large' not in str(r['error'].get('message')):
+                    viol('overlap/unexpected-error', f'{label}: {str(r["error"])[:160]}')
+                else:
+                    bump('overlapping_requests_refused_too_large')
+            for c_ in [cl] + others:
+                for i in (3, 4, 5):
+                    if hashx(scripts[i]) in c_.session.hashX_subs:
+                        viol('overlap/over-limit-subscription-kept', f'{label}: a session keeps a subscription to a history of '
+                             f'{len(orc.history(hashx(scripts[i])))} entries (limit {L})')
+
+        async def send(c_, kind, i):
+            id_ = await c_.send(f'blockchain.scripthash.{kind}', [scripthash_hex(scripts[i])])
+            return (c_, id_, kind, i)
+        for rnd in range(2):
+            touch_block((3, 5))                     # invalidates the cached refusals of scripts 3 and 5
+            if not await srv.wait_caught_up(600):
+                out['inconclusive'].append('no catch-up before the overlap phase')
+                return
+            await asyncio.sleep(12)
+            orc = ChainOracle(w.active(), w.activation)
+            sent = []
+            for c_ in [cl] + others:
+                sent.append(await send(c_, 'get_history', 5))
+                sent.append(await send(c_, 'subscribe', 3))
+                sent.append(await send(c_, 'get_history', 5))
+            bump('pipelined_batches')
+            await judge_overlap('pipelined requests from three sessions', sent)
+        # a notification (non-empty touched set: a mempool tx paying the small script) processed while the reads are held
+        touch_block((4, 5))
+        if not await srv.wait_caught_up(600):
+            out['inconclusive'].append('no catch-up before the race phase')
+            return
+        await asyncio.sleep(12)
+        orc = ChainOracle(w.active(), w.activation)
+        inval0 = srv.sm._history_invalidations
+
+        def on_submit(job):
+            if job.name.split('.')[-1] == 'read_history':
+                job.longpark = 'job-end'
+                job.park_secs = 9
+                bump('history_reads_held')
+        vloop.Gate.enabled = True
+        loop.gex.on_submit = on_submit
+        sent = [await send(cl, 'get_history', 5), await send(others[0], 'subscribe', 4), await send(others[1], 'get_history', 4)]
+        await asyncio.sleep(0.5)
+        salt += 1
+        o = last[6]
+        t = Tx([(o[0], o[1], b'', MINUS1)], [(900, scripts[6])], locktime=salt)
+        w.mempool[t.hash] = t
+        w.txs[t.hash] = t
+        w.bump()
+        await judge_overlap('a notification processed while the history reads were in flight', sent)
+        loop.gex.on_submit = None
+        vloop.Gate.enabled = False
+        if srv.sm._history_invalidations > inval0:
+            bump('history_reads_overlapped_by_an_invalidation')
+        await asyncio.sleep(6)
         # ---- headers
+        orc = ChainOracle(w.active(), w.activation)
         H = orc.height
         allh = orc.headers()
 
@@ -258,6 +345,7 @@ def run(tier, seed, replay=None):
     c = rep.counters
     for name, minimum in {'history_requests': 50, 'histories_answered_in_full': 15, 'histories_refused_too_large': 15, 'refused_cached': 8,
                           'subscriptions_refused': 8, 'subscriptions_accepted': 8, 'over_limit_subscriptions_dropped': 8,
+                          'overlapping_requests_judged': 60, 'pipelined_batches': 6, 'history_reads_overlapped_by_an_invalidation': 3,
                           'headers_requests': 2000, 'headers_refused_bad_checkpoint': 20, 'headers_requests_in_reorg_window': 100}.items():
         rep.floor(name, c[name], minimum)
     return rep.finish(
@@ -266,7 +354,10 @@ def run(tier, seed, replay=None):
              'through a real session: get_history twice (fresh and from cache) and subscribe for each; histories below the limit must '
              'come back complete with the status of the full history, above it must be refused consistently and not subscribed '
              '(exactly at the limit either outcome is accepted, but never a prefix); then the two scripts just below the limit grow '
-             'past it while subscribed: only null statuses may be notified and the subscriptions must be dropped. Headers: '
+             'past it while subscribed: only null statuses may be notified and the subscriptions must be dropped. Overlap: three sessions '
+             'pipeline get_history / subscribe for over-limit scripts whose cached refusal a block has just invalidated, and once more '
+             'with the history reads held while a mempool notification (non-empty touched set) is processed: every answer must be the '
+             'refusal and no subscription may be kept. Headers: '
              '(start,count,cp_height) triples around genesis, the 2016 cap and the chain end, plus dense sweeps with the cap lowered '
              'to 1/2/7 through the class attribute, and requests crossing the chain end inside the window of a forced reorg (blocks undone, '
              're-advance held back by a slow daemon: the header file holds orphaned headers beyond the tip): count == min(requested, max, '
